@@ -3,7 +3,8 @@
 (* Design model of the BETDAQ order path (Betdaq.tla) for a few orders:     *)
 (* every interleaving of strategy requests, runs of the execution thread    *)
 (* with every outcome (answer with return codes / reports missing / the     *)
-(* call raising, applied or not), fills and cancellations at the exchange,  *)
+(* call raising, applied or not; the response handled later than the call), *)
+(* fills and cancellations at the exchange,                                 *)
 (* polls taken and polls processed.                                         *)
 (* Checked: the documented lifecycle, finality of COMPLETE, at most one     *)
 (* operation per order outstanding.  `last` (hidden by View) carries the    *)
@@ -28,7 +29,21 @@ D26Step(st, e) ==
     /\ \E i \in DOMAIN Head(st.hq) :
           LET c == Head(st.hq)[i] IN
           /\ Has(st.ord, c.o) /\ st.ord[c.o].status = "UPDATING" /\ st.ord[c.o].seq # c.seq /\ OpenAtExchange(c.status)
-          /\ \E j \in DOMAIN st.pool : st.pool[j].kind = "UPDATE" /\ c.o \in SeqToSet(st.pool[j].orders)
+          /\ \/ \E j \in DOMAIN st.pool : st.pool[j].kind = "UPDATE" /\ c.o \in SeqToSet(st.pool[j].orders)
+             \* on the wire: genuine only if the exchange applied the update and the polled entry already shows it
+             \/ /\ st.wire # <<>> /\ st.wire[1].kind = "UPDATE" /\ c.o \in SeqToSet(st.wire[1].orders)
+                /\ ~(c.o \in SeqToSet(st.wire[1].applied) /\ c.price = st.ord[c.o].newp)
+
+\* D27: the failure path of execute_update (the call raised - although the exchange may have applied it - or an error
+\* code) resets every order of the package to EXECUTABLE whatever the order is doing by then: an order whose update was
+\* confirmed by a poll meanwhile and which has accepted a new request is pulled out of CANCELLING / UPDATING while
+\* that request is outstanding
+D27Step(st, e) ==
+    /\ e.ev = "resp" /\ st.wire # <<>> /\ st.wire[1].kind = "UPDATE"
+    /\ \E o \in SeqToSet(st.wire[1].orders) :
+          /\ ~(st.wire[1].oc = "answer" /\ st.wire[1].codes[o] = 0)
+          /\ st.ord[o].status \in {"CANCELLING", "UPDATING"}
+          /\ \E j \in DOMAIN st.pool : o \in SeqToSet(st.pool[j].orders)
 
 Req(kind, o, price) == [ev |-> "req", a |-> [txn |-> FALSE], reqs |-> <<[kind |-> kind, o |-> o, price |-> price, size |-> Size]>>]
 ReqTxn(kind, price) == [ev |-> "req", a |-> [txn |-> TRUE],
@@ -41,26 +56,29 @@ Events ==
     \* all orders in one transaction: one package holding every accepted order
     \cup (IF Cardinality(Orders) > 1 /\ s.ord = <<>> THEN {ReqTxn("PLACE", 200)} ELSE {})
     \cup (IF Cardinality(Orders) > 1 /\ DOMAIN s.ord = Orders THEN {ReqTxn("CANCEL", 0), ReqTxn("UPDATE", 300)} ELSE {})
-    \cup (IF s.pool = <<>> THEN {}
+    \* the execution thread: one call at a time; its response is handled later
+    \cup (IF s.pool = <<>> \/ s.wire # <<>> THEN {}
+          ELSE IF ~Buildable(s) THEN {[ev |-> "nobuild", a |-> [n |-> 0]]}
           ELSE LET p == Head(s.pool)
-                   os == SeqToSet(p.orders)
-               IN {[ev |-> "run", a |-> [kind |-> p.kind, oc |-> oc, codes |-> cs, missing |-> ms]] :
+                   os == SeqToSet(Sent(s, p))
+               IN {[ev |-> "call", a |-> [kind |-> p.kind, oc |-> oc, codes |-> cs, missing |-> ms]] :
                       oc \in {"answer", "raise", "raise_applied"}, cs \in [os -> {0, 136}],
                       ms \in (IF p.kind = "CANCEL" THEN SUBSET os ELSE {{}})})
+    \cup (IF s.wire # <<>> THEN {[ev |-> "resp", a |-> [n |-> 0]]} ELSE {})
     \cup {[ev |-> "xfill", a |-> [o |-> o, amount |-> amt]] : o \in {k \in DOMAIN s.x : OpenAtExchange(s.x[k].status)}, amt \in 1..Size}
     \cup {[ev |-> "xcancel", a |-> [o |-> o]] : o \in {k \in DOMAIN s.x : OpenAtExchange(s.x[k].status)}}
     \cup (IF Len(s.hq) < MaxPolls THEN {[ev |-> "snap", a |-> [n |-> 0]]} ELSE {})
     \cup (IF s.hq # <<>> THEN {[ev |-> "proc", a |-> [n |-> 0]]} ELSE {})
 
 \* (outcomes that do not matter for the kind are collapsed: a raising call carries no codes)
-Canon(e) == IF e.ev = "run" /\ e.a.oc # "answer" THEN [e EXCEPT !.a.codes = [k \in DOMAIN e.a.codes |-> 0], !.a.missing = {}] ELSE e
+Canon(e) == IF e.ev = "call" /\ e.a.oc # "answer" THEN [e EXCEPT !.a.codes = [k \in DOMAIN e.a.codes |-> 0], !.a.missing = {}] ELSE e
 
 Next == /\ steps < MaxSteps
         /\ \E e \in Events :
              /\ e = Canon(e)
-             /\ Step(s, e) # s \/ e.ev \in {"req", "run"}
+             /\ Step(s, e) # s \/ e.ev \in {"req", "call", "resp", "nobuild"}
              /\ s' = Step(s, e) /\ steps' = steps + 1 /\ last' = e
-             /\ taint' = IF D26Step(s, e) THEN taint \cup {"D26"} ELSE taint
+             /\ taint' = taint \cup (IF D26Step(s, e) THEN {"D26"} ELSE {}) \cup (IF D27Step(s, e) THEN {"D27"} ELSE {})
 Spec == Init /\ [][Next]_vars
 
 -----------------------------------------------------------------------------
@@ -82,9 +100,12 @@ Inv_C03_BetKnown == \A o \in DOMAIN s.ord : s.ord[o].status \in {"CANCELLING", "
 Inv_MatchedBounded == \A o \in DOMAIN s.ord : s.ord[o].m > 0 => (Has(s.x, o) /\ s.ord[o].m <= s.x[o].m)
 
 \* witnesses (each must be reachable)
-Reach_D26_TwoInFlight == ~(\E o \in DOMAIN s.ord : InFlightCount(s, o) > 1)
+Reach_D26_TwoInFlight == ~("D26" \in taint /\ \E o \in DOMAIN s.ord : InFlightCount(s, o) > 1)
+Reach_D27_ResetWhileCancelling == ~(taint = {"D27"} /\ InFlightWrong(s) # {})
 Reach_CompleteWhileUpdateInFlight ==
     ~(\E o \in DOMAIN s.ord : s.ord[o].status = "COMPLETE" /\ \E i \in DOMAIN s.pool : s.pool[i].kind = "UPDATE" /\ o \in SeqToSet(s.pool[i].orders))
+Reach_PolledWhileOnTheWire ==     \* a poll showing the order is processed between the exchange booking a placement and its response
+    ~(s.wire # <<>> /\ s.wire[1].kind = "PLACE" /\ \E o \in SeqToSet(s.wire[1].orders) : Has(s.ord, o) /\ s.ord[o].seq # -1 /\ ~s.ord[o].bet)
 Reach_UpdatedPrice == ~(\E o \in DOMAIN s.ord : s.ord[o].price = 300 /\ s.ord[o].status = "EXECUTABLE")
 Reach_CancelledByExchange == ~(\E o \in DOMAIN s.ord : s.ord[o].status = "COMPLETE" /\ Has(s.x, o) /\ s.x[o].status = "Cancelled" /\ s.ord[o].m = 1)
 =============================================================================
